@@ -14,9 +14,9 @@ from .. import flow
 from ..cfg import cfg_of
 from ..model import UNKNOWN, AnchorError, Func, UnknownIdiom, attr_chain, local_names, short, unparse, walk_no_nested
 from .c08 import check_parse_qs_options
-from .c09_helpers import (ASGI_REQ, HEADER_INPUTS, WSGI_REQ, ReachingDefs, SiteEscape, Unreadable, assignments, branch_facts, classes_of,
-                          effective_members, fact_value, factory_bindings, header_getter_kinds, is_public, kind_text, node_defs, node_of,
-                          norm_header_key, split_key, table_of, unguarded_keys)
+from .c09_helpers import (ASGI_REQ, HEADER_INPUTS, WSGI_REQ, CObj, ConcreteEval, CRaise, ReachingDefs, SiteEscape, Unreadable, assignments,
+                          branch_facts, classes_of, effective_members, fact_value, factory_bindings, header_getter_kinds, is_public, kind_text,
+                          node_defs, node_of, norm_header_key, split_key, table_of, unguarded_keys)
 from .common import enclosing_map, is_self_attr, walk_self
 
 # ---------------------------------------------------------------------------
@@ -1471,6 +1471,328 @@ def _reads_own_raw(pl: '_Pipeline') -> bool:
                         return True
     return False
 
+# ---------------------------------------------------------------------------
+# R14 the header mappings hold one entry per request header, whatever its value
+# ---------------------------------------------------------------------------
+
+# sample request tables (finite domain): header names of the three CGI classes x values that are
+# empty / blank / falsy-looking / ordinary.  PEP 3333: HTTP_* variables and CONTENT_TYPE / CONTENT_LENGTH
+# are the request headers; everything else in the environ is not a header.
+_R14_HTTP = (('HTTP_HOST', 'example.com'), ('HTTP_X_EMPTY', ''), ('HTTP_IF_NONE_MATCH', ''), ('HTTP_X_BLANK', ' '),
+             ('HTTP_X_TOKEN', 'abc'), ('HTTP_X_ZERO', '0'))
+_R14_CONTENT = (('CONTENT_TYPE', 'text/plain'), ('CONTENT_LENGTH', '0'))
+_R14_CONTENT_BLANK = (('CONTENT_TYPE', ''), ('CONTENT_LENGTH', ''))
+_R14_OTHER = (('REQUEST_METHOD', 'GET'), ('PATH_INFO', '/'), ('SERVER_NAME', 'localhost'), ('SERVER_PORT', '80'), ('REMOTE_ADDR', '10.0.0.1'),
+              ('wsgi.url_scheme', 'http'), ('HTTPS', 'off'), ('HTTP', 'x'))
+_R14_ASGI = ((b'host', b'example.com'), (b'x-empty', b''), (b'if-none-match', b''), (b'x-blank', b' '), (b'x-token', b'abc'),
+             (b'x-zero', b'0'), (b'content-type', b''), (b'content-length', b'0'))
+
+
+def _sample_request(p, cq: str, tables: Dict[str, object]) -> CObj:
+    """A stand-in request object: the given request tables plus every attribute a constructor in the
+    MRO initialises with a literal constant (the memo sentinels)."""
+    attrs: Dict[str, object] = {}
+    for k in reversed(p.mro(cq)):
+        c = p.classes.get(k)
+        init = c.methods.get('__init__') if c is not None else None
+        if init is None:
+            continue
+        for n in walk_no_nested(init.node):
+            if isinstance(n, (ast.Assign, ast.AnnAssign)) and isinstance(n.value, ast.Constant):
+                for t in (n.targets if isinstance(n, ast.Assign) else [n.target]):
+                    if isinstance(t, ast.Attribute) and isinstance(t.value, ast.Name) and t.value.id == 'self':
+                        attrs[t.attr] = n.value.value
+    attrs.update(tables)
+    return CObj(cq, attrs)
+
+
+def _r14_decider(trace, fq: str, pred, want: str):
+    """The construct that decided the fate of the sample item: the last test (want='test') or the last store
+    (want='assign') evaluated in f while iterating over an item for which pred holds; else the loop itself."""
+    cur = False
+    last = None
+    for t in trace:
+        if t[3] != fq:
+            continue
+        if t[0] == 'iter':
+            cur = pred(t[2])
+            if cur:
+                it = t[1].iter if isinstance(t[1], ast.For) else t[1].generators[0].iter
+                last = 'for ... in %s' % short(it, 80)
+        elif cur and t[0] == want and not (want == 'assign' and isinstance(t[1], ast.Assign) and all(isinstance(x, ast.Name) for x in t[1].targets)):
+            last = t[1]
+    return last
+
+
+def _r14_saw(trace, fq, name, key) -> bool:
+    return any(t[0] == 'iter' and t[3] == fq and isinstance(t[2], tuple) and len(t[2]) == 2 and isinstance(t[2][0], (str, bytes))
+               and (t[2][0] == name or (isinstance(t[2][0], str) and t[2][0].lower() == key)) for t in trace)
+
+
+def r14_header_mapping_entries(run):
+    """req.headers / req.headers_lower hold one entry for EVERY request header, with the value as received: on WSGI
+    one per HTTP_* environ key and one for a non-blank CONTENT_TYPE / CONTENT_LENGTH, nothing for a non-header
+    key; on ASGI one per (name, value) pair.  Decided by evaluating the four accessors on a sample request table
+    (header values empty / blank / '0' / ordinary): which entries exist may not depend on the value.
+    (A blank CONTENT_TYPE / CONTENT_LENGTH placeholder may or may not be reported: not demanded.)
+    W: `X-Empty:` -> 'x-empty' in req.headers_lower on ASGI, missing on WSGI."""
+    p = run.project
+    mw, ma = effective_members(p, WSGI_REQ), effective_members(p, ASGI_REQ)
+    plans = []
+    env1 = dict(_R14_OTHER[:4] + _R14_HTTP[:3] + _R14_CONTENT + _R14_OTHER[4:] + _R14_HTTP[3:])
+    env2 = dict(_R14_OTHER[:2] + _R14_CONTENT_BLANK + _R14_HTTP)
+    for acc in ('headers', 'headers_lower'):
+        for cq, mem, table, samples in ((WSGI_REQ, mw, 'env', (env1, env2)), (ASGI_REQ, ma, '_asgi_headers', (dict(_R14_ASGI),))):
+            m = mem.get(acc)
+            if m is None or m.func is None or not m.func.is_property():
+                raise AnchorError('%s.%s is not a property' % (cq, acc))
+            plans.append((cq, acc, m.func, table, samples))
+    for cq, acc, f, table, samples in plans:
+        run.use(f)
+        wsgi = cq == WSGI_REQ
+        groups: Dict[str, List[tuple]] = {}
+        order = ['HTTP_* variables', 'CONTENT_TYPE / CONTENT_LENGTH', 'non-header environ keys'] if wsgi else ['header pairs']
+        problems: Dict[str, dict] = {}
+        n_items = {g: 0 for g in order}
+        for sample in samples:
+            ev = ConcreteEval(p)
+            obj = _sample_request(p, cq, {table: dict(sample)})
+            try:
+                got = ev.getattr(obj, acc, f, None)
+            except CRaise as ex:
+                raise UnknownIdiom('%s: evaluating the accessor on the sample request raised %s at %s' % (f.qual, ex.cls, short(ex.node, 60) if ex.node is not None else '?'))
+            if not isinstance(got, dict) or not all(isinstance(k, str) and isinstance(v, str) for k, v in got.items()):
+                raise UnknownIdiom('%s: the accessor does not answer a str -> str mapping on the sample request (%s)' % (f.qual, type(got).__name__))
+            low: Dict[str, List[tuple]] = {}
+            for k, v in got.items():
+                low.setdefault(k.lower(), []).append((k, v))
+            claimed = set()
+            for name, value in sample.items():
+                if wsgi:
+                    if name.startswith('HTTP_'):
+                        grp, key, need = order[0], name[5:].replace('_', '-').lower(), True
+                    elif name in ('CONTENT_TYPE', 'CONTENT_LENGTH'):
+                        grp, key, need = order[1], name.replace('_', '-').lower(), (True if value.strip() else None)
+                    else:
+                        grp, key, need = order[2], None, False
+                    want_v = value
+                else:
+                    grp, key, need, want_v = order[0], name.decode('latin-1').lower(), True, value.decode('latin-1')
+                n_items[grp] += 1
+                if key is None:
+                    continue
+                claimed.add(key)
+                ent = low.get(key, [])
+                bad = None
+                if not ent and need:
+                    bad = ('dropped', 'no entry for the request header %r (value %r)' % (name, value), 'test')
+                elif len(ent) > 1:
+                    bad = ('duplicate', 'the request header %r appears under %d keys %s' % (name, len(ent), sorted(k for k, _v in ent)), 'assign')
+                elif ent and ent[0][1] != want_v:
+                    bad = ('value', 'the entry for %r holds %r, the request carried %r' % (name, ent[0][1], want_v), 'assign')
+                elif ent and acc == 'headers_lower' and ent[0][0] != key:
+                    bad = ('case', 'headers_lower key %r is not lower-case' % ent[0][0], 'assign')
+                if bad is not None:
+                    own_iter = any(t[0] == 'iter' and t[3] == f.qual for t in ev.trace)
+                    if bad[0] == 'dropped' and not own_iter or (bad[0] == 'dropped' and acc == 'headers_lower' and not _r14_saw(ev.trace, f.qual, name, key)):
+                        continue  # built from the sibling accessor, which lost the entry and is examined itself
+                    cons = _r14_decider(ev.trace, f.qual, lambda it, name=name: isinstance(it, tuple) and len(it) == 2 and (
+                        it[0] == name or (isinstance(it[0], str) and isinstance(name, str) and it[0].lower() == (key or '').lower())), bad[2])
+                    d = problems.setdefault((grp, bad[0], short(cons, 120) if cons is not None else 'mapping'), {'cons': cons, 'what': []})
+                    d['what'].append(bad[1])
+            for k in sorted(set(low) - claimed):
+                src = [n for n in sample if isinstance(n, str) and n.replace('_', '-').lower() == k] if wsgi else []
+                grp = order[2] if wsgi else order[0]
+                cons = _r14_decider(ev.trace, f.qual, lambda it, src=src: isinstance(it, tuple) and len(it) == 2 and it[0] in src, 'assign') if src else None
+                d = problems.setdefault((grp, 'extra', short(cons, 120) if cons is not None else 'mapping'), {'cons': cons, 'what': []})
+                d['what'].append('an entry %r = %r that is not a request header' % (low[k][0][0], low[k][0][1]))
+        failed_groups = {g for (g, _k, _c) in problems}
+        for g in order:
+            if g not in failed_groups:
+                run.ok('%s.%s on the sample request: %s (%d samples, values empty / blank / "0" / ordinary) -> %s' % (
+                    cq, acc, g, n_items[g], 'no entry' if g == 'non-header environ keys' else 'one entry each, value as received'), f.loc(), '%s(%s)' % (acc, g))
+        for (g, kind, _c), d in sorted(problems.items(), key=lambda kv: kv[0]):
+            cons = d['cons'] if d['cons'] is not None else 'mapping(%s)' % g
+            run.fail('%s.%s does not hold exactly one entry per request header with the value as received (%s): %s; '
+                     'the sibling stack reports the header, so the same request is seen differently' % (cq, acc, g, d['what'][0]),
+                     f, cons, where=f.loc(cons) if isinstance(cons, ast.AST) else f.loc(), witness=d['what'][:8],
+                     runtime_witness="a request with the header `X-Empty:` (empty value): 'x-empty' in req.headers_lower on one stack, missing on the other")
+
+# ---------------------------------------------------------------------------
+# R15 one-shot scope fields are consumed at one memoised site per request
+# ---------------------------------------------------------------------------
+
+# scope key -> reason it may be readable only once
+ONE_SHOT_SCOPE_KEYS = {
+    'client': 'ASGI: "an iterable of [host, port]" -- may be forward-only; falcon.testing.create_scope passes iter([addr, port])',
+    'server': 'ASGI: "an iterable of [host, port]" -- may be forward-only; falcon.testing.create_scope passes iter([host, port])',
+}
+
+
+def _scope_reads(f: Func, key: str):
+    out = []
+    for n in walk_no_nested(f.node):
+        tbl = k = None
+        if isinstance(n, ast.Subscript) and isinstance(n.ctx, ast.Load):
+            tbl, k = table_of(f, n.value), n.slice
+        elif isinstance(n, ast.Call) and isinstance(n.func, ast.Attribute) and n.func.attr in ('get', 'pop', 'setdefault') and n.args:
+            tbl, k = table_of(f, n.func.value), n.args[0]
+        if tbl is not None and tbl[0] == 'scope' and isinstance(k, ast.Constant) and k.value == key:
+            out.append(n)
+    return out
+
+
+def _memo_guard(p, f: Func, site) -> Optional[str]:
+    """The attribute A such that the site runs only while self.A is unset (a dominating branch outcome says
+    `self.A is None` / `not self.A`) and every feasible way from the site to a normal return stores self.A (so
+    the next access takes the other branch).  Feasibility: while self.A is still unset, a branch outcome that
+    says it is set cannot be taken.  None if there is no such attribute."""
+    from .common import implied
+    cfg = cfg_of(f, p)
+    nid = node_of(cfg, site)
+
+    def atoms(a):
+        def sentinel(e):
+            return (isinstance(e, ast.Constant) and e.value is None) or (isinstance(e, ast.Name) and e.id == '_UNSET')
+
+        def unset_is(e):
+            return isinstance(e, ast.Compare) and len(e.ops) == 1 and isinstance(e.ops[0], ast.Is) and is_self_attr(e.left, a) and sentinel(e.comparators[0])
+
+        def set_isnot(e):
+            return isinstance(e, ast.Compare) and len(e.ops) == 1 and isinstance(e.ops[0], ast.IsNot) and is_self_attr(e.left, a) and sentinel(e.comparators[0])
+
+        def truthy(e):
+            return is_self_attr(e, a)
+        return unset_is, set_isnot, truthy
+
+    cands: Dict[str, str] = {}
+    for test, truth in branch_facts(cfg, nid):
+        for x in walk_self(test):
+            if isinstance(x, ast.Attribute) and isinstance(x.value, ast.Name) and x.value.id == 'self':
+                unset_is, set_isnot, truthy = atoms(x.attr)
+                if implied(test, truth, unset_is) is True or implied(test, truth, set_isnot) is False:
+                    cands[x.attr] = 'sentinel'
+                elif implied(test, truth, truthy) is False:
+                    cands.setdefault(x.attr, 'falsy')
+    for a in sorted(cands):
+        unset_is, set_isnot, truthy = atoms(a)
+        exact = cands[a] == 'sentinel'
+
+        def labeler(n, a=a):
+            if n.kind == 'stmt' and isinstance(n.ast, (ast.Assign, ast.AnnAssign)) and getattr(n.ast, 'value', None) is not None:
+                tg = n.ast.targets if isinstance(n.ast, ast.Assign) else [n.ast.target]
+                if any(is_self_attr(t, a) for t in tg):
+                    return ['STORE']
+            return []
+
+        def delta(st, lab):
+            return 'S' if lab == 'STORE' else st
+
+        def edge_delta(st, x, y, l):
+            n = cfg.node(x)
+            if n.kind == 'test' and l in ('T', 'F'):
+                tr = l == 'T'
+                says_set = implied(n.ast, tr, truthy) is True or (exact and (implied(n.ast, tr, set_isnot) is True or implied(n.ast, tr, unset_is) is False))
+                says_unset = implied(n.ast, tr, unset_is) is True or implied(n.ast, tr, set_isnot) is False
+                if st == 'U' and says_set:
+                    return None
+                if st == 'S' and says_unset and exact:
+                    return None
+            return st
+
+        cex, _ns, _nt = flow.typestate(cfg, labeler, delta, 'U', exit_ok=lambda st: st == 'S', start=nid, edge_delta=edge_delta)
+        if cex is None:
+            return a
+    return None
+
+
+def _no_exotic_memo(p, f: Func, site, key: str):
+    """The site is not behind a readable memo test.  Before that counts as "consumed on every call", make sure it
+    is not behind a memo idiom this rule does not read (hasattr / __dict__ probing, try: self.<x> except
+    AttributeError, functools caching): those are unknown idioms, not violations."""
+    cfg = cfg_of(f, p)
+    nid = node_of(cfg, site)
+    for test, _truth in branch_facts(cfg, nid):
+        for x in walk_self(test):
+            if isinstance(x, ast.Call) and isinstance(x.func, ast.Name) and x.func.id in ('hasattr', 'getattr'):
+                raise UnknownIdiom("%s: scope[%r] is read behind %s; the rule does not read this memo idiom" % (f.qual, key, short(test, 80)))
+            if isinstance(x, ast.Attribute) and x.attr in ('__dict__', '__slots__'):
+                raise UnknownIdiom("%s: scope[%r] is read behind %s; the rule does not read this memo idiom" % (f.qual, key, short(test, 80)))
+    parent = enclosing_map(f.node)
+    for anc in _ancestors(site, parent):
+        if isinstance(anc, ast.ExceptHandler) and anc.type is not None and any(
+                isinstance(x, ast.Name) and x.id == 'AttributeError' for x in walk_self(anc.type)):
+            raise UnknownIdiom("%s: scope[%r] is read in an `except AttributeError` arm (an EAFP memo?); the rule does not read this idiom" % (f.qual, key))
+    top = f
+    while top is not None:
+        if any(('cache' in d or 'cached' in d or 'memo' in d) for d in top.decorators):
+            raise UnknownIdiom("%s: scope[%r] is read inside a function decorated with %s; the rule does not read this memo idiom" % (
+                f.qual, key, ', '.join(top.decorators)))
+        top = top.parent
+
+
+def r15_one_shot_scope_fields(run):
+    """The ASGI scope's `client` / `server` are only promised to be iterables; they may be forward-only (falcon's
+    own test client passes iter([...])).  Per request object each is therefore read at exactly ONE site, and that
+    site runs at most once: it sits in the constructor, or behind the unset-test of a memo attribute that every
+    way from the site to a normal return stores.  Every other accessor reads the memo.
+    W: simulate_get(asgi_app, remote_addr='10.1.2.3'); req.remote_addr twice (or remote_addr, then access_route):
+    the second unpacking finds an exhausted iterator -> ValueError -> 500."""
+    p = run.project
+    funcs = [f for f in p.all_functions() if f.module.name.startswith('falcon.asgi') or (f.cls is not None and f.cls.qual in (WSGI_REQ, ASGI_REQ))]
+    for key, why in sorted(ONE_SHOT_SCOPE_KEYS.items()):
+        sites = []
+        for f in funcs:
+            for n in _scope_reads(f, key):
+                sites.append((f, n))
+        if not sites:
+            raise AnchorError("no read of scope[%r] found in falcon.asgi (the request class used to consume it once, memoised)" % key)
+        once = []
+        for f, n in sites:
+            run.use(f)
+            top = f
+            while top.parent is not None:
+                top = top.parent
+            if top is f and f.name == '__init__' and f.cls is not None and f.cls.qual == ASGI_REQ:
+                parent = enclosing_map(f.node)
+                in_loop = any(isinstance(a, (ast.For, ast.While, ast.AsyncFor)) for a in _ancestors(n, parent))
+                once.append((f, n, 'the constructor' if not in_loop else None))
+            else:
+                a = _memo_guard(p, f, n)
+                if a is None:
+                    _no_exotic_memo(p, f, n, key)
+                once.append((f, n, ('the memo self.%s' % a) if a else None))
+        good = [(f, n, how) for f, n, how in once if how]
+        for f, n, how in once:
+            st = _stmt_of(f, n)
+            if how is None:
+                run.fail("scope[%r] is consumed here on every call, outside any memo (%s): a second access of the request's client/server "
+                         'information finds the iterable exhausted' % (key, why), f, st, where=f.loc(n),
+                         witness=['other site(s): %s' % ', '.join('%s (%s)' % (g.qual, h or 'unguarded') for g, m_, h in once if m_ is not n) or 'none'],
+                         runtime_witness="scope['%s'] = iter([...]) (falcon.testing does this): req.remote_addr read twice, or remote_addr and "
+                                         'access_route -> ValueError: not enough values to unpack (a 500); WSGI and tuple-passing servers are fine' % key)
+            elif len(good) > 1:
+                run.fail("scope[%r] is consumed at %d sites, each behind its own memo (%s): whichever runs second finds the iterable exhausted"
+                         % (key, len(good), why), f, st, where=f.loc(n), witness=['sites: %s' % ', '.join('%s (%s)' % (g.qual, h) for g, _m, h in good)],
+                         runtime_witness="scope['%s'] = iter([...]): the second of the accessors to run raises ValueError / sees an empty value" % key)
+            else:
+                run.ok("scope[%r] is consumed at one site that runs at most once per request (%s)" % (key, how), f.loc(n), st)
+
+
+def _ancestors(node, parent):
+    cur = parent.get(id(node))
+    while cur is not None:
+        yield cur
+        cur = parent.get(id(cur))
+
+
+def _stmt_of(f: Func, node):
+    parent = enclosing_map(f.node)
+    cur = node
+    while cur is not None and not isinstance(cur, ast.stmt):
+        cur = parent.get(id(cur))
+    return cur if cur is not None else node
+
 
 def check(run):
     run.assume('whole-behaviour equality is not decided; the parity obligations between the hand-duplicated siblings are')
@@ -1499,3 +1821,5 @@ def check(run):
     run.rule('R7', r7_render_sibling_stores, 'render siblings perform the same stores on the response', floor=2)
     run.rule('R6', r6_access_route_tail, 'access_route: peer appended under the same condition in both stacks', floor=1)
     run.rule('R5', r5_driver_tables, 'test drivers provide what the request classes read; header-name mangling agrees', floor=12)
+    run.rule('R14', r14_header_mapping_entries, 'req.headers / headers_lower: one entry per request header whatever its value (sample evaluation), both stacks', floor=8)
+    run.rule('R15', r15_one_shot_scope_fields, "scope['client'] / scope['server'] (possibly forward-only iterables) are consumed at one memoised site per request", floor=2)
